@@ -8,12 +8,12 @@ export GOFLAGS=-mod=mod GOPROXY=off
 cd $WT || exit 2
 git checkout -q -- . 2>/dev/null
 DEMO=$PKG/zz_seed_demo_test.go
-cp SEED/demo_test.go $DEMO
+if [ "$PKG" = "SEED" ]; then DEMO=/dev/null/none; else cp SEED/demo_test.go $DEMO; fi
 TAGARG=""; [ "$TAGS" != "-" ] && TAGARG="-tags $TAGS"
 go test $TAGARG -vet=off -count=1 -run "$RUN" ./$PKG/ >/tmp/keep_seed_clean.log 2>&1; CLEAN=$?
 git apply SEED/patch.diff || { echo "patch does not apply"; exit 2; }
 go test $TAGARG -vet=off -count=1 -run "$RUN" ./$PKG/ >/tmp/keep_seed_patched.log 2>&1; PATCHED=$?
-rm -f $DEMO
+[ "$PKG" = "SEED" ] || rm -f $DEMO
 SUITE=$(go test -vet=off -count=1 ./... 2>&1 | grep -c "^FAIL\|^--- FAIL")
 git checkout -q -- .
 echo "demo without patch exit=$CLEAN, with patch exit=$PATCHED, suite FAIL lines with patch=$SUITE"
